@@ -400,7 +400,9 @@ func (s *LinearState) doFindRules(ctx *Context, event Map) (map[string]Map, erro
 				}
 			}
 		default:
-			panic(fmt.Errorf("rule %#v bad type", rule))
+			// A fact whose 'rule' is not a map is not a rule
+			// (IndexedState never indexes it either).
+			Log(WARN, ctx, "LinearState.FindRules", "name", s.Name, "id", id, "ignored", fmt.Sprintf("rule %#v bad type", rule))
 		}
 	}
 
